@@ -40,6 +40,8 @@ const (
 	RST       = "RST"
 	BLACKHOLE = "BLACKHOLE" // keep reading, discard everything, forward nothing
 	STALL     = "STALL"     // stop reading altogether (peer's writes eventually block)
+	CLOSE1000 = "CLOSE1000" // the client receives a close frame (1000 normal closure), then the connection ends
+	CLOSE1001 = "CLOSE1001" // the client receives a close frame (1001 going away: restart / draining proxy), then the connection ends
 )
 
 // MsgInfo summarises one complete data message.
@@ -296,6 +298,27 @@ func (p *Proxy) kill(pc *pconn, kind string) {
 	}
 	close(pc.stallCh)
 	switch kind {
+	case CLOSE1000, CLOSE1001:
+		code := byte(0xe8) // 1000
+		if kind == CLOSE1001 {
+			code = 0xe9
+		}
+		if pc.ws {
+			// unmasked server->client close frame with a 2-byte status code
+			pc.c.SetWriteDeadline(time.Now().Add(time.Second))
+			pc.c.Write([]byte{0x88, 0x02, 0x03, code})
+		}
+		for _, c := range []net.Conn{pc.c, pc.s} {
+			c := c
+			if t, ok := c.(*net.TCPConn); ok {
+				t.CloseWrite()
+			}
+			go func() {
+				c.SetReadDeadline(time.Now().Add(2 * time.Second))
+				io.Copy(io.Discard, c)
+				c.Close()
+			}()
+		}
 	case RST:
 		rst(pc.c)
 		rst(pc.s)
